@@ -3,7 +3,7 @@
 From Coq Require Import List NArith ZArith Bool Lia.
 From Verif Require Import Common.GoInt Gen.Sequence GenProofs.SequenceProofs.
 From Verif Require Import Chain.Model Chain.Proofs Chain.ProofsWalk Chain.ProofsSys Chain.ProofsPath Chain.Examples
-  LogDB.Model LogDB.Proofs LogDB.ProofsCanon.
+  LogDB.Model LogDB.Proofs LogDB.ProofsCanon LogDB.ProofsRows.
 Import ListNotations.
 Open Scope N_scope.
 
@@ -23,7 +23,7 @@ Theorem seq_model_is_translated b t l :
 Proof.
   destruct (seq_of b t l) as [s|] eqn:E.
   - apply seq_of_inv in E. destruct E as [[H1 [H2 H3]] ->]. unfold max_block, max_txi, max_logi in *.
-    rewrite new_sequence_value by (unfold SequenceProofs.seq_ok; lia). cbn [option_map]. unfold pack. f_equal. lia.
+    rewrite new_sequence_value by (unfold SequenceProofs.seq_ok; lia). cbn [option_map]. unfold SequenceProofs.pack. f_equal. lia.
   - assert (N : ~ LogDB.Proofs.seq_ok b t l) by (intros H; rewrite (seq_of_some _ _ _ H) in E; discriminate).
     rewrite new_sequence_rejects; [reflexivity | lia | lia | lia |].
     unfold SequenceProofs.seq_ok, LogDB.Proofs.seq_ok, max_block, max_txi, max_logi in *. lia.
@@ -82,6 +82,23 @@ Theorem logdb_tracks_canonical g gp tag r db : num_of g = 0 -> imported g gp tag
   forall st, is_path r (r_best r) st -> rows_of_path r st = Some db.
 Proof. intros Hg I. exact (logdb_tracks_canonical_lemma g gp tag Hg r db I). Qed.
 
+(* 5. ... and those tables are, literally, the logs of the canonical chain: the concatenation in chain order of the rows
+      each block's receipts prescribe (block_events / block_transfers: block id and time, tx id and origin, clause index,
+      and the position key (block number, tx index, running log index within the block)). *)
+Theorem logdb_is_canonical_logs g gp tag r db : num_of g = 0 -> imported g gp tag r db ->
+  forall st, is_path r (r_best r) st ->
+    db_events db = chain_events r st /\ db_transfers db = chain_transfers r st.
+Proof.
+  intros Hg I st P. pose proof (imported_reachable _ _ _ _ _ I) as R.
+  apply (rows_of_path_flat r st (reachable_wf_body _ _ _ _ _ Hg R) (path_desc g gp r (reachable_wf _ _ _ _ _ Hg R) _ _ P)).
+  exact (logdb_tracks_canonical_lemma g gp tag Hg r db I st P).
+Qed.
+
+(* writing a block above every stored key appends exactly the rows its receipts prescribe *)
+Theorem write_block_appends_rows b d d' : write_block b d = Some d' -> below (num_of (b_id b) * two35) d ->
+  db_events d' = db_events d ++ block_events b /\ db_transfers d' = db_transfers d ++ block_transfers b.
+Proof. exact (write_block_appends b d d'). Qed.
+
 (* the canonical path exists and is unique, so the statement is not vacuous in `st` *)
 Theorem canonical_path_exists g gp tag r db : num_of g = 0 -> imported g gp tag r db -> exists st, is_path r (r_best r) st.
 Proof.
@@ -101,6 +118,7 @@ Example ex_c15 :
   map er_block (db_events ex_db4) = [bid 2 2; bid 2 2] /\ map er_tx (db_events ex_db4) = [1001; 1002] /\
   map (fun x => (seq_block (er_seq x), seq_txi (er_seq x), seq_logi (er_seq x))) (db_events ex_db4) = [(2, 0, 0); (2, 1, 1)] /\
   rows_of_path ex_r4 [bid 3 1; bid 2 2; bid 1 1; ex_g] = Some ex_db4 /\
+  chain_events ex_r4 [bid 3 1; bid 2 2; bid 1 1; ex_g] = db_events ex_db4 /\ length (chain_transfers ex_r4 [bid 3 1; bid 2 2; bid 1 1; ex_g]) = 2%nat /\
   (exists stale, In stale (db_events ex_db2) /\ er_block stale = bid 2 1 /\
      match write_block ex_b2' ex_db2 with Some d => In stale (db_events d) | None => False end) /\
   filter_events ex_db4 [mkEC (Some 900) [Some 5; None; None; None; None]] (mkFO (Some (2, 1)) None true) = Some [] /\
@@ -123,3 +141,5 @@ Print Assumptions insert_or_ignore_partial.
 Print Assumptions truncate_then_insert_partial.
 Print Assumptions logdb_tracks_canonical.
 Print Assumptions canonical_path_exists.
+Print Assumptions logdb_is_canonical_logs.
+Print Assumptions write_block_appends_rows.
